@@ -40,6 +40,7 @@ type DriverManifest struct {
 	Sharing  bool          `json:"sharing,omitempty"`
 	Races    bool          `json:"races,omitempty"`
 	Wrap     string        `json:"wrap,omitempty"` // "" | errors | using
+	Enums    map[string][]string `json:"enums,omitempty"`
 }
 
 // RunSpec describes one generate-compile-execute case.
